@@ -359,22 +359,29 @@ def run(ctx):
             ctx.notes.append('deviation witnesses did not reproduce on the real code (model drift)')
 
     # 3. emitted slice -> replay (spec -> code)
-    mod = 29 if quick else 37
+    mod = 97 if quick else 151
     emit_kw = dict(nodes=2) if quick else dict(nodes=3)
     cfg = write_cfg(ctx, 'emit.cfg', mod=mod, rem=ctx.seed % mod, emit=True, **emit_kw)
     res = run_tlc('Imports', cfg, workers=1, timeout=3000)
     ctx.add_tlc(res, 'case emission slice %d mod %d %s' % (ctx.seed % mod, mod, emit_kw))
     cs = cases(res)
     # larger layouts by simulation (random walks through the builder actions)
-    sim_kw = dict(nodes=5, depth=3, names=('pka', 'pkb', 'pkc'))
+    sim_kw = dict(nodes=5, depth=3, names=('pka', 'pkb', 'pkc'), level=3, frompath=2)
     cfg = write_cfg(ctx, 'sim.cfg', emit=True, **sim_kw)
-    res = run_tlc('Imports', cfg, workers=1, timeout=120 if quick else 600,
-                  simulate='num=%d' % (150 if quick else 1500), depth=8, seed=ctx.seed + 1)
+    nsim = 40 if quick else 800
+    res = run_tlc('Imports', cfg, workers=1, timeout=300 if quick else 1200,
+                  simulate='num=%d' % nsim, depth=8, seed=ctx.seed + 1)
     ctx.add_tlc(res, 'case emission by simulation %s' % (sim_kw,))
-    cs2 = cases(res)
+    cs2 = cases(res)[:nsim]
+    # simulated cases carry several hundred statements each: replay the failing ones and a sample
+    for c in cs2:
+        keep = [x for x in c['qs'] if not x['ok']]
+        rest = [x for x in c['qs'] if x['ok']]
+        ctx.rng.shuffle(rest)
+        c['qs'] = keep[:20] + rest[:30]
     ctx.log('emitted %d + %d (simulation) cases' % (len(cs), len(cs2)))
     cs += cs2
-    if len(cs) < 100:
+    if len(cs) < 60:
         raise MachineryError('too few cases emitted: %d' % len(cs))
     nq = sum(len(c['qs']) for c in cs)
     ctx.log('replaying %d cases / %d import statements (x infer, goto)' % (len(cs), nq))
@@ -394,7 +401,7 @@ def run(ctx):
     events += ev_replay[:600 if quick else 6000]
 
     # 4. random deeper trees (code -> spec)
-    nrand = 60 if quick else 900
+    nrand = 40 if quick else 900
     rcs = [random_case(ctx.rng) for _ in range(nrand)]
     ctx.log('recording %d random deeper trees' % nrand)
     routs = run_cases(ctx, rcs, 'rand')
